@@ -1103,3 +1103,53 @@ def run_sibling_deadline_tests(run, P):
                               'the tests of the deadline %s against now in this function disagree (%s): one of them treats a timer that is due exactly now differently, so on '
                               'one route it never fires (or fires a tick early)' % (var, desc))
     run.require_count(n >= 1 or run.cfg != 'base' or run.fixture_mode, 'R-TIMER-REC (sibling deadline tests): no deadline compared twice with now in one function')
+
+
+# ---------------------------------------------------------------------------------------------------------------- C05 / C03
+def run_short_unit_parsed(run, P, fname='coap_read_session', parse='coap_pdu_parse', ws_min=2):
+    """R-PARSE-GATE (a complete message is not dropped for being short): the WebSocket layer hands the session reader one complete CoAP message.
+    On the paths that know the protocol to be WS / WSS, the byte count reaching coap_pdu_parse() has a lower bound of at most 2 - the size of the
+    CoAP-over-WebSockets header (RFC 8323 section 4: Len = 0 | TKL, code), i.e. of the smallest well-formed message (an option-less Ping, Pong,
+    Release, Empty).  A larger bound drops those messages silently: neither parsed nor reported as a bad packet."""
+    run.rule('R-PARSE-GATE')
+    if not P.has(fname):
+        raise AnalysisBroken('R-PARSE-GATE (short unit): %s() not found' % fname)
+    f = P.func(fname)
+    ws = (P.const_named('COAP_PROTO_WS'), P.const_named('COAP_PROTO_WSS'))
+    sites = [ev for b, ev in P.events(f) if ev['e'].get('k') == 'call' and ev['e'].get('fn') == parse and len(ev['e'].get('a') or ()) >= 3]
+    if not sites:
+        raise AnalysisBroken('R-PARSE-GATE (short unit): %s() does not call %s()' % (fname, parse))
+    judged = [0]
+    rep = set()
+
+    def on_event(ev, env, ctx):
+        if not any(ev is s_ for s_ in sites):
+            return None
+        t = ev['e']
+        if not env.ts.get('ws'):
+            return None
+        judged[0] += 1
+        la = ap(t['a'][2])
+        llo = env.intf(la)[0] if la else -INF
+        ok = llo <= ws_min
+        run.oblige('R-PARSE-GATE', ok, '%s:short-ws-message-parsed' % fname)
+        if not ok and ev['loc'] not in rep:
+            rep.add(ev['loc'])
+            run.violation('R-PARSE-GATE', fname, ev['loc'], 'short-ws-message-dropped',
+                          'on the WebSocket path the parser is only reached with a byte count of at least %s: a complete %d byte CoAP-over-WebSockets message (an option-less '
+                          'Ping / Pong / Release / Empty) is dropped without being parsed or reported' % (llo, ws_min), ctx.path())
+        return None
+    def on_branch(b, s_, env, ctx):
+        # the protocol test is remembered in the typestate: the read call in between is handed the session and forgets its fields
+        c = strip((b.get('term') or {}).get('cond'))
+        if isinstance(c, dict) and c.get('k') == 'bin' and c.get('op') == '==' and len(b['succ']) == 2 and s_ == b['succ'][0]:
+            for x, y in ((c['l'], c['r']), (c['r'], c['l'])):
+                sx = strip(x)
+                if isinstance(sx, dict) and sx.get('k') == 'mem' and sx.get('f') == 'proto' and const_int(y) in ws:
+                    e = env.copy()
+                    e.ts['ws'] = 1
+                    return e
+        return env
+    run.instance('R-PARSE-GATE', '%s: lower bound of the byte count handed to %s() on the WS path' % (fname, parse))
+    solve(f, Env(), on_event, None, None, None, key_fn=lambda e: (e.ts.get('ws'),), on_branch=on_branch, max_envs=768)
+    run.require_count(judged[0] >= 1 or run.cfg != 'base' or run.fixture_mode, 'R-PARSE-GATE (short unit): no call of %s() on a path that knows the protocol to be WS / WSS' % parse)
